@@ -20,7 +20,7 @@ BATTERIES = {
     'C06': [['gc']],
     'C07': [['gc']],
     'C04': [['entities']],
-    'C19': [['entities']],
+    'C19': [['maps'], ['entities']],
     'C16': [['visit'], ['visit-cf', '4', '3'], ['visit-deep', '100000']],
     'C03': [['op'], ['cf', '4', '3'], ['cf', '5', '2']],
     'C01': [['op'], ['cf', '4', '3'], ['entities'], ['builder', '60']],
